@@ -439,7 +439,18 @@ def agree(k, p, out, mv):
                 return False
             if not close(al, mal, rtol=1e-6, atol=1e-9 / t_):
                 return False
-            if not all(close(x, y, rtol=1e-9, atol=1e-12 * t_) for x, y in zip(backs, mbacks)):
+            gs = [g, math.nextafter(g, 0.0), g * 0.5, g * 1e-3]
+            for gq, x, y in zip(gs, backs, mbacks):
+                if close(x, y, rtol=1e-9, atol=1e-12 * t_):
+                    continue
+                # knife edge of MscStepFromGeo: x = min(alpha*w*g, 1); at x == 1 (+- rounding) the
+                # power law (1 - x)^(1/w) is pure rounding noise (0 or ~1e-16): accepted either way
+                try:
+                    w = 1 + 1 / (al * p["lam"])
+                    if al != 0 and abs(al * w * gq - 1) < 1e-9:
+                        continue
+                except (ZeroDivisionError, OverflowError):
+                    pass
                 return False
         return True
     if k == "togeo":
